@@ -84,6 +84,11 @@ let handle (cmd : ostring) (args : ostring list) : ostring =
       | Some d -> Printf.sprintf "alg=%s keylen=%d hash=%s aead=%b tag=%d" (alg_name d.d_alg) (int_of_z d.d_keylen) (hash_name d.d_hash) d.d_aead (int_of_z d.d_tag)
       | None -> "None")
   | "iana", [c] -> (match x_iana (z_of_hex c) with Some n -> ocaml_string n | None -> "None")
+  | "fullpn", [l; b] -> (match x_full_pn (z_of_hex l) (bytes_of_hex b) with
+      | Ok (r, l') -> "Ok " ^ hex_of_bytes_strict r ^ " " ^ hex_of_z l'
+      | Exn e -> "Exn " ^ exn_name e)
+  | "rfcpn", [l; t; k] -> hex_of_z (x_rfc_pn (z_of_hex l) (z_of_hex t) (z_of_hex k))
+  | "nonce", [iv; pn] -> hex_of_bytes_strict (x_quic_nonce (bytes_of_hex iv) (bytes_of_hex pn))
   | "ping", _ -> "pong"
   | _ -> "ERR unknown command " ^ cmd
 
